@@ -324,6 +324,21 @@ def _run(pid, cfg, tier, seed, repo, work, t0):
             if pid in h["props"] and h["status"] == "FAILED":
                 kfails.append((k, h))
 
+    # second opinion (registry.SECOND_OPINION): a Verus failure in a function whose complete Kani twin passes is not a violation
+    second = []
+    kept = []
+    for (u, f) in mine:
+        so = registry.SECOND_OPINION.get(f.fn)
+        if so:
+            grp, names = so
+            hs = [h for k in kres if k["group"] == grp for h in k["harnesses"] if h["name"] in names]
+            if len(hs) == len(names) and all(h["status"] == "SUCCESSFUL" for h in hs):
+                second.append("%s: %s/%s not re-proved by Verus (%s) but decided by the complete Kani harness(es) %s, which pass on this tree" % (
+                    u, f.fn, f.label, f.message.split(" [")[0], ", ".join(names)))
+                continue
+        kept.append((u, f))
+    mine = kept
+
     known = [k for k in load_known() if k.get("property") == pid and k.get("status") == "open"]
     violations, known_hit = [], []
     seen_keys = set()
@@ -387,6 +402,7 @@ def _run(pid, cfg, tier, seed, repo, work, t0):
             undecided=undecided,
             extraction_notes=["%s: %s" % (u["name"], n) for u in units if u["asm"] is not None for n in u["asm"].notes],
             detection_selftest=mut if mut is not None else "thorough tier only",
+            second_opinions=second,
             seeded_selftest=(seeded if tier == "thorough" else "thorough tier only"),
             exhaustive=False,
             explanation="obligations = labelled contract clauses (postconditions, loop invariants) of the real functions listed, one safety obligation per function (overflow, bounds, callee preconditions, asserts), Kani harnesses, and the supporting lemmas; discharged by the back end named per obligation on /repo's current working tree",
@@ -515,6 +531,8 @@ def _run(pid, cfg, tier, seed, repo, work, t0):
         json.dump(ev, fo, indent=1, default=str)
     for l in lines:
         print(l)
+    for s_ in second:
+        print("SECOND-OPINION: " + s_)
     for u in undecided:
         print("UNDECIDED: " + u)
     print("%s: %d obligations, %d discharged, %d violations, %d known findings, %d undecided notes, %.1fs [%s]" % (
